@@ -4,13 +4,14 @@
 set -u
 WT="$1"; M="$2"; D="$WT/OUT/$M"
 cd "$WT" || exit 2
+FEAT=$(python3 -c "import json,sys; f=json.load(open('$D/meta.json')).get('features') or []; print(('--features '+','.join(f)) if f else '')" 2>/dev/null)
 git checkout -q -- src; rm -f tests/demo_*.rs
 cp "$D/demo.rs" tests/demo_$M.rs
-base=$(cargo test --offline --test demo_$M 2>&1 | grep -E "^test result" | head -1)
+base=$(cargo test --offline $FEAT --test demo_$M 2>&1 | grep -E "^test result" | head -1)
 git apply "$D/patch.diff" || { echo "APPLY-FAILED"; exit 2; }
 lib=$(cargo test --offline --lib 2>&1 | grep -E "^test result" | head -1)
 cc=$(cargo test --offline --test color_control 2>&1 | grep -E "^test result" | head -1)
-mut=$(cargo test --offline --test demo_$M 2>&1 | grep -E "^test result|could not compile" | head -1)
+mut=$(cargo test --offline $FEAT --test demo_$M 2>&1 | grep -E "^test result|could not compile" | head -1)
 git checkout -q -- src; rm -f tests/demo_$M.rs
 echo "demo on clean tree : $base"
 echo "lib tests w/ patch : $lib"
